@@ -287,7 +287,7 @@ VOID = set('area base basefont br col frame hr img input isindex link meta param
 RAW = set(['script', 'style'])
 HTML_BLOCKS = ['div', 'p', 'ul', 'table', 'pre', 'blockquote', 'h1', 'form']
 HTML_INLINE = ['span', 'a', 'b', 'em', 'code', 'i']
-HTEXT = ['text', 'a b', ' ', 'x < y & z', 'é', '\u00a0', '€', '"q"', 'café ', ' lead', 'trail ', 'two\nlines', '>', "'"]
+HTEXT = ['text', 'a b', ' ', 'x < y & z', 'a<b>c</b>', '&lt;tag&gt;', '<!--t-->', 'R&D;', '&#65;&amp;', '</p>', '<br>', 'é', '\u00a0', '€', '"q"', 'café ', ' lead', 'trail ', 'two\nlines', '>', "'"]
 
 
 def gen_html(r, depth=0):
